@@ -104,7 +104,7 @@ class Graph:
     def content(s, e, out, files):
         """what command e writes to `out` when it reads `files` (dict path->content or missing)"""
         if out in s.ddtext: return s.ddtext[out]
-        acc = e.eval_command().encode() + b'\0' + out.encode() + b'\0'
+        acc = (b'generator' if e.generator else e.eval_command().encode()) + b'\0' + out.encode() + b'\0'
         for p in e.reads():
             acc += p.encode() + b'\0' + files.get(p, '<missing>').encode('latin1') + b'\0'
         return 'H:%016x' % fnv(acc)
@@ -149,7 +149,7 @@ class Graph:
                     res.add(e.idx); outs |= set(s.eff_outs(e)); changed = True
         return res
 
-FEATURES = dict(implicit=0.4, orderonly=0.35, multiout=0.25, impout=0.15, phony=0.15, restat=0.2, generator=0.0,
+FEATURES = dict(implicit=0.4, orderonly=0.35, multiout=0.25, impout=0.15, phony=0.2, restat=0.3, generator=0.08, alias=0.5,
                 deps=0.3, validations=0.15, pools=0.3, rsp=0.15, dyndep=0.0, subdirs=0.2)
 
 def gen_graph(rnd, nedges, feat=None, wf_reads=True):
@@ -170,7 +170,9 @@ def gen_graph(rnd, nedges, feat=None, wf_reads=True):
             if rnd.random() < 0.3: e.oo = pick(1)
         else:
             e.outs = [d + 'o%d' % idx]
-            if rnd.random() < f['multiout']: e.outs.append(d + 'o%db' % idx)
+            if rnd.random() < f['multiout']:
+                # second output: same dir, or a not-yet-existing subdirectory of the first one's directory
+                e.outs.append((d + 'sub%d/' % idx if rnd.random() < 0.4 else d) + 'o%db' % idx)
             if rnd.random() < f['impout']: e.outs.append('io%d' % idx); e.n_imp_out = 1
             e.exp = pick(rnd.randrange(1, 4))
             rest = [a for a in avail if a not in e.exp]
@@ -178,6 +180,7 @@ def gen_graph(rnd, nedges, feat=None, wf_reads=True):
             rest = [a for a in rest if a not in e.imp]
             if rnd.random() < f['orderonly'] and rest: e.oo = rnd.sample(rest, min(len(rest), rnd.randrange(1, 3)))
             e.restat = rnd.random() < f['restat']
+            e.generator = rnd.random() < f['generator']
             if rnd.random() < f['deps'] and len(e.outs) - e.n_imp_out >= 1:
                 kind = rnd.choice(['gcc', 'msvc', 'depfile', 'gcc'])
                 if len(e.outs) > 1 and kind != 'depfile': kind = 'depfile' if rnd.random() < 0.5 else ''
@@ -200,6 +203,11 @@ def gen_graph(rnd, nedges, feat=None, wf_reads=True):
         g.edges.append(e)
         for o in e.outs:
             avail.append(o)
+        # motif: phony aliases of a restat statement's outputs (so that pruning passes through phony edges)
+        if e.restat and not e.phony and rnd.random() < f['alias']:
+            for a in range(rnd.randrange(1, 3)):
+                pe = Edge(1000 + idx * 10 + a); pe.phony = True; pe.outs = ['al%d_%d' % (idx, a)]; pe.exp = [rnd.choice(e.outs)]
+                g.edges.append(pe); avail.append(pe.out0); avail.append(pe.out0)
     if rnd.random() < 0.3:
         outs = [e.out0 for e in g.edges]
         g.defaults = rnd.sample(outs, rnd.randrange(1, min(3, len(outs)) + 1))
